@@ -30,9 +30,19 @@ def paths(q):
                 return None
             t = node.test
             op = type(t.ops[0]).__name__
-            if isinstance(t.comparators[0], ast.Constant) and t.comparators[0].value == 1:
+
+            def is_x(expr):
+                """the tested quantity is the ratio of the two steps (not a dimension count, a length ...)"""
+                try:
+                    n0 = len(fr.interp.events)
+                    v = fr.interp.ev(expr, fr)
+                    del fr.interp.events[n0:]
+                except Exception:
+                    return False
+                return ("p:dt" in v.tags or "attr:_dt" in v.tags) and "p:target_dt" in v.tags
+            if isinstance(t.comparators[0], ast.Constant) and t.comparators[0].value == 1 and is_x(t.left):
                 return dec.get(op)
-            if isinstance(t.left, ast.Constant) and t.left.value == 1:
+            if isinstance(t.left, ast.Constant) and t.left.value == 1 and is_x(t.comparators[0]):
                 return dec.get(FLIP.get(op))
             return None
         yield name, oracle
@@ -124,7 +134,9 @@ def run(chk):
                 divs = [e for e in r.events("arith", q) if e.op == "Div" and e.left.sym == LinExpr("dt") and e.right.kind == K_SCALAR
                         and e.right.sym == fmul.sym and e.right.rel == fmul.rel]
                 chk.ob("R-GRID", c + "{step}", "the step is computed as dt / factor with the factor of new_npts", len(divs) >= 1,
-                       derived="%d division(s) dt/factor" % len(divs), loc=muls[0].loc)
+                       derived="%d division(s) dt/factor" % len(divs), loc=muls[0].loc,
+                       # a division of dt by something else is the located wrong step; no division of dt at all: the step is formed elsewhere
+                       inconclusive=not divs and not [e for e in r.events("arith", q) if e.op == "Div" and e.left.sym == LinExpr("dt")])
                 divs = [muls[0]]
                 f = fmul
                 rel = f.rel
@@ -178,11 +190,12 @@ def run(chk):
                             chk.ob("R-GRID", c + "{length}", "length is factor*len(values)", okl, derived="length %r" % (nl,), loc=ip[0].loc)
                         expect(chk, "R-GRID", c + ".values", item(r.ret, 0), lin=[R], tags_has=["interp:linear"], loc=r.fi.loc())
                     else:
-                        chk.ob("R-GRID", c + "{interp}", "one np.interp call", False, derived="%d" % len(ip), loc=r.fi.loc())
+                        chk.ob("R-GRID", c + "{interp}", "one np.interp call", False, derived="%d" % len(ip), loc=r.fi.loc(), inconclusive=not ip)
                     nd = item(r.ret, 1)
                     chk.ob("R-GRID", c + ".new_dt", "the second result is dt / factor", nd is not None and nd.kind == K_SCALAR and
                            repr(nd.sym) == "div[dt,%r]" % f.sym if f.sym is not None else False,
-                           derived="new_dt = %r" % (nd.sym if nd is not None else None,), loc=r.fi.loc())
+                           derived="new_dt = %r" % (nd.sym if nd is not None else None,), loc=r.fi.loc(),
+                           inconclusive=(nd is None or nd.sym is None))
                 else:
                     o = r.st.heap.get(r.ret.obj) if r.ret.kind == K_OBJ else None
                     rsm = [e for e in r.events("lib-call", q) if e.name == "scipy.signal.resample"]
